@@ -318,6 +318,20 @@ class C05:
         else:
             src = {"start": b(0), "low": b(1), "end": b(2), "high": b(3)}
 
+        def extremes_as_bounds(t):
+            """for a flat list of (time, frequency) points: min / max of one component over all points is that bound"""
+            if not isinstance(t, tuple) or not t:
+                return t
+            t = tuple(extremes_as_bounds(x) if isinstance(x, tuple) else x for x in t)
+            if t[0] == "call" and t[1] in (("builtin", "min"), ("builtin", "max")) and len(t[2]) == 1 and not t[3] \
+                    and t[2][0][0] == "comp" and t[2][0][1] in ("list", "gen") and len(t[2][0][3]) == 1:
+                lid_, it_, conds_ = t[2][0][3][0]
+                elt_ = t[2][0][2]
+                if it_ == c and not conds_ and elt_[0] == "sub" and elt_[1] == ("elem", lid_) and elt_[2] in (("const", 0), ("const", 1)):
+                    k_ = elt_[2][1]
+                    return ("sub", bnd, ("const", k_ if t[1][1] == "min" else k_ + 2))
+            return t
+
         def variants(expr_fn):
             outs = []
             for st in src["start"]:
@@ -359,7 +373,7 @@ class C05:
             if tname not in spec:
                 ctx.undec("R05.4", site, f"feature term {tname} has no specification")
                 continue
-            if canon(val) in spec[tname]:
+            if canon(val) in spec[tname] or (name in ("LineString", "MultiPoint") and canon(extremes_as_bounds(val)) in spec[tname]):
                 ctx.ok("R05.4", site, f"{name}: {tname} = {show(val)[:50]}")
             else:
                 ctx.bad("R05.4", file, fn, f"Feature(term=terms.{tname}, value={show(val)[:60]})",
